@@ -95,7 +95,8 @@ def handle (args : List String) : String :=
   | ["apply", ct, strict, ops] =>
     match opsOfWire ops, ct.toNat? with
     | some os, some c =>
-      let (s, rej) := applyAll (initSt c (strict == "1")) 0 os
+      -- version class: "0" Version = 0, "1" 0 < Version < 2.0, "2" Version ≥ 2.0
+      let (s, rej) := applyAll (initSt c (strict == "1") (strict != "0")) 0 os
       match rej with
       | some (i, _) => s!"rej {i} {showSt s}"
       | none =>
